@@ -346,6 +346,13 @@ Fixpoint run (h : N -> N) (st : std) (ops : list op) : list obs :=
   | o :: t => let '(st', ob) := step h st o in ob :: run h st' t
   end.
 
+(* final state of a history (the correspondence check also compares slot order and capacity) *)
+Fixpoint exec (h : N -> N) (st : std) (ops : list op) : std :=
+  match ops with
+  | [] => st
+  | o :: t => exec h (fst (step h st o)) t
+  end.
+
 Definition sm_step (h : N -> N) (m : smallmap) (o : op) : smallmap * obs :=
   let '(c, k, v) := o in
   match c with
